@@ -521,6 +521,63 @@ clock by 100 s before every probe).  `none` = the decision of some enforced rule
 def flowProbe (enf : List FlowRule) (batch : Nat) : Option Bool :=
   if enf.all (fun r => r.tcs = 0 ∧ r.rel = 0) then some (enf.any fun r => decide (2 * (batch : Int) > r.th2)) else none
 
+/-! #### flow: a short sequence of requests at one instant after the idle gap
+
+Every controller starts from "nothing passed in my window, my pacer last fired long ago" — whether it is fresh or
+properly reused — and each controller has its *own* pacer and reads a live pass statistic: a Reject rule bound to a
+dead statistic, or two rules sharing one pacer, answer differently.  The harness keeps the memory usage above every
+high water mark, so a memory-adaptive rule's threshold is its `HighMemUsageThreshold`; a warm-up rule is cold
+(threshold `T / coldFactor`).  Result per request: `p` pass, `b` block, `w` the request had to sleep (the clock moved:
+the sequence stops there). -/
+
+/-- rules whose decision in a sequence is modelled: current-resource rules; warm-up only with Reject and a cold
+    threshold `T / coldFactor` that is not an integer (so that the last ulp of the float expression cannot matter) -/
+def flowSeqKnown (r : FlowRule) : Bool :=
+  decide (r.rel = 0) &&
+  (decide (r.tcs = 0) || decide (r.tcs = 2) ||
+   (decide (r.tcs = 1) && decide (r.cb = 0) && decide (r.th2 % 2 = 0) && decide (r.th2 % (2 * (r.wuCf : Int)) ≠ 0) &&
+    decide ((r.wuPeriod : Int) * r.th2 ≥ 1 + (r.wuCf : Int))))     -- maxToken > warningToken (else the slope is +Inf: C11's warmup-nan)
+
+/-- the threshold in force, in halves -/
+def flowT2 (r : FlowRule) : Int := if r.tcs = 2 then 2 * r.highMem else r.th2
+
+/-- one request of `b` tokens against the rules in order; `n` tokens passed so far, `thr` = per rule, the pacer's
+    `lastPassedTime - now` in ns (`none` = long ago).  Returns the pacers, blocked?, slept? -/
+def flowReqRules : List FlowRule → List (Option Int) → Nat → Nat → List (Option Int) × Bool × Bool
+  | r :: rs, t :: ts, n, b =>
+    if r.cb = 0 then
+      let blocked : Bool :=
+        if r.tcs = 1 then decide (((n + b : Nat) : Int) * 2 * (r.wuCf : Int) > r.th2)   -- cold: (n+b) > T / coldFactor
+        else decide (2 * ((n + b : Nat) : Int) > flowT2 r)                               -- curCount + batch > threshold
+      if blocked then (t :: ts, true, false)
+      else let x := flowReqRules rs ts n b; (t :: x.1, x.2.1, x.2.2)
+    else
+      let T2 := flowT2 r
+      if T2 ≤ 0 ∨ 2 * (b : Int) > T2 then (t :: ts, true, false)
+      else
+        let statNs : Int := (if r.statMs = 0 then 1000 else (r.statMs : Int)) * 1000000
+        let interval : Int := (2 * (b : Int) * statNs + T2 - 1) / T2                     -- ceil(b / T * statIntervalNs)
+        let fire : Bool := match t with | none => true | some a => decide (a + interval ≤ 0)
+        if fire then let x := flowReqRules rs ts n b; (some 0 :: x.1, x.2.1, x.2.2)
+        else
+          let est : Int := t.getD 0 + interval
+          if est > (r.maxQ : Int) * 1000000 then (t :: ts, true, false)
+          else if est > 0 then (some est :: ts, false, true)
+          else let x := flowReqRules rs ts n b; (some est :: x.1, x.2.1, x.2.2)
+  | _, ts, _, _ => (ts, false, false)
+
+def flowSeqGo (enf : List FlowRule) : List Nat → Nat → List (Option Int) → List Char
+  | [], _, _ => []
+  | b :: bs, n, thr =>
+    let x := flowReqRules enf thr n b
+    if x.2.2 then ['w']
+    else if x.2.1 then 'b' :: flowSeqGo enf bs n x.1
+    else 'p' :: flowSeqGo enf bs (n + b) x.1
+
+/-- `none` = some rule in force is not modelled -/
+def flowSeq (enf : List FlowRule) (batches : List Nat) : Option String :=
+  if enf.all flowSeqKnown then some (String.ofList (flowSeqGo enf batches 0 (enf.map fun _ => none))) else none
+
 /-- isolation: `cur + batch > threshold` with `cur = 0` -/
 def isoProbe (enf : List IsoRule) (batch : Nat) : Bool := enf.any fun r => r.metric = 0 ∧ batch > r.th
 
